@@ -56,6 +56,67 @@ void printfTime(const char *fmt, ...) {
 #endif
 #endif
 
+
+#ifdef SVT_AV1_VERIF
+/* Verification hook H1 (guarded, add-only): schedule perturbation at every synchronisation wrapper.
+ * SVT_VERIF_SCHED="seed:permille:max_us" makes each library thread, with probability permille/1000 at each
+ * wrapper call, either yield or sleep 0..max_us microseconds; the decision stream is a per-thread xorshift
+ * seeded from (seed, thread ordinal).  A harness may instead install svt_verif_sync_cb to take over.
+ * Without the environment variable and without a callback the hook is a single predictable branch. */
+#include <stdlib.h>
+#include <unistd.h>
+#include <sched.h>
+void (*svt_verif_sync_cb)(int kind, void *handle) = NULL;
+static volatile int      verif_sched_state = 0; /* 0 unknown, 1 off, 2 on */
+static uint32_t          verif_sched_seed, verif_sched_permille, verif_sched_max_us;
+static volatile uint32_t verif_thread_ordinal = 0;
+static volatile uint64_t verif_sched_events   = 0;
+static __thread uint64_t verif_rng            = 0;
+EB_API uint64_t svt_verif_sched_event_count(void) { return verif_sched_events; }
+static void verif_sched_init(void) {
+    const char *e = getenv("SVT_VERIF_SCHED");
+    unsigned    a = 0, b = 0, c = 0;
+    if (e && sscanf(e, "%u:%u:%u", &a, &b, &c) >= 2 && b > 0) {
+        verif_sched_seed     = a;
+        verif_sched_permille = b;
+        verif_sched_max_us   = c;
+        verif_sched_state    = 2;
+    } else
+        verif_sched_state = 1;
+}
+static void svt_verif_sync_point(int kind, void *handle) {
+    if (svt_verif_sync_cb) {
+        svt_verif_sync_cb(kind, handle);
+        return;
+    }
+    if (verif_sched_state == 0)
+        verif_sched_init();
+    if (verif_sched_state != 2)
+        return;
+    if (verif_rng == 0) {
+        uint32_t ord = __sync_fetch_and_add(&verif_thread_ordinal, 1);
+        verif_rng    = 0x9E3779B97F4A7C15ull * (verif_sched_seed + 1) ^ (0xC2B2AE3D27D4EB4Full * (ord + 1));
+        if (verif_rng == 0)
+            verif_rng = 1;
+    }
+    uint64_t x = verif_rng;
+    x ^= x << 13;
+    x ^= x >> 7;
+    x ^= x << 17;
+    verif_rng = x;
+    if ((x % 1000) < verif_sched_permille) {
+        __sync_fetch_and_add(&verif_sched_events, 1);
+        if (((x >> 20) & 3) == 0 || verif_sched_max_us == 0)
+            sched_yield();
+        else
+            usleep((useconds_t)((x >> 24) % (verif_sched_max_us + 1)));
+    }
+}
+#define SVT_VERIF_SYNC(kind, h) svt_verif_sync_point((kind), (void *)(h))
+#else
+#define SVT_VERIF_SYNC(kind, h)
+#endif
+
 /****************************************
  * svt_create_thread
  ****************************************/
@@ -214,6 +275,7 @@ EbHandle svt_create_semaphore(uint32_t initial_count, uint32_t max_count) {
  * svt_post_semaphore
  ***************************************/
 EbErrorType svt_post_semaphore(EbHandle semaphore_handle) {
+    SVT_VERIF_SYNC(1, semaphore_handle);
     EbErrorType return_error;
 
 #ifdef _WIN32
@@ -237,6 +299,7 @@ EbErrorType svt_post_semaphore(EbHandle semaphore_handle) {
  * svt_block_on_semaphore
  ***************************************/
 EbErrorType svt_block_on_semaphore(EbHandle semaphore_handle) {
+    SVT_VERIF_SYNC(2, semaphore_handle);
     EbErrorType return_error;
 
 #ifdef _WIN32
@@ -305,6 +368,7 @@ EbHandle svt_create_mutex(void) {
  * svt_release_mutex
  ***************************************/
 EbErrorType svt_release_mutex(EbHandle mutex_handle) {
+    SVT_VERIF_SYNC(3, mutex_handle);
     EbErrorType return_error;
 
 #ifdef _WIN32
@@ -321,6 +385,7 @@ EbErrorType svt_release_mutex(EbHandle mutex_handle) {
  * svt_block_on_mutex
  ***************************************/
 EbErrorType svt_block_on_mutex(EbHandle mutex_handle) {
+    SVT_VERIF_SYNC(4, mutex_handle);
     EbErrorType return_error;
 
 #ifdef _WIN32
@@ -391,6 +456,7 @@ EbErrorType svt_create_cond_var(CondVar *cond_var)
 */
 EbErrorType svt_set_cond_var(CondVar *cond_var, int32_t newval)
 {
+    SVT_VERIF_SYNC(5, cond_var);
     EbErrorType return_error;
 #ifdef _WIN32
     EnterCriticalSection(&cond_var->cs);
@@ -413,6 +479,7 @@ EbErrorType svt_set_cond_var(CondVar *cond_var, int32_t newval)
 
 EbErrorType svt_wait_cond_var(CondVar *cond_var, int32_t input)
 {
+    SVT_VERIF_SYNC(6, cond_var);
     EbErrorType return_error;
 
 #ifdef _WIN32
